@@ -39,6 +39,7 @@ func runC16(c *Ctx) {
 	rulePositiveAfterCallback(c) // every recipient the client was told "250" for was handed to the backend
 	R.Rule("R-client-parse", "E4 + who-may-call", "the verdict Close returns is the server's reply converted by readResponse/toSMTPErr: code, enhanced code and the text with the per-line code repetitions removed", 4)
 	ruleClientParse(c)
+	ruleWriteDeadlineOwner(c) // "Close returns the server's verdict": the verdict of a slow delivery is still written (no read deadline covers writes)
 	ruleClientDeadlinesPaired(c)
 	ruleNoCommandWhileDataOpen(c)
 	ruleLimitBudget(c)  // on a server with a size limit a message of exactly that size still reaches its end marker (Close returns the verdict, not a 552)
